@@ -300,6 +300,8 @@ def run(tier):
                 for f in chk.failures[before:]:
                     f['key'] = f'unfaithful:{name}'
         wf.run_frames_oracle([x for x in (None,) if x], model, bres, chk)
+        # the capstone model as a whole: file bytes vs modelWrite
+        wf.modelwrite_stream('C12', tier, model, bres, chk, 80, 800)
         # fail-closed at the setters: every attribute of every object type given values of every Python kind (most of
         # them unacceptable for the attribute); what is accepted must come out of the strict reader as assigned
         from harness import convert
